@@ -19,6 +19,7 @@
 from __future__ import annotations
 
 import itertools
+import json
 import logging
 import math
 import os
@@ -325,8 +326,148 @@ def statistical_task(task: dict) -> dict:
     return out
 
 
+def history_task(task: dict) -> dict:
+    """TLC-enumerated operation histories (MPSOps.tla, one name) ending in Sample, executed on real entangled
+    MPS objects: the sampled distribution must be the Born distribution of the object's dense contraction
+    taken just before the call -- whatever centre / gauge the history left behind."""
+    import torch
+
+    torch.set_num_threads(1)
+    logging.getLogger("emulators").setLevel(logging.ERROR)
+    out = {"tests": 0, "worst": [], "scenarios": 0, "raised": [], "chi2": [], "centres": {}}
+    with M.SplitSpy() as spy:
+        for h in task["histories"]:
+            n, params, shots = h["n"], h["params"], task["shots"]
+            label = {"kind": "MPS", "dim": params["dim"], "n": n, "shots": shots, "mode": "history", "fp": 0.0, "fn": 0.0,
+                     "history": h["path"], "params": params}
+            try:
+                w = M.World(n, params)
+                bad = False
+                for act in h["path"]:
+                    o = M.real_step(w, dict(zip(("op", "a", "b", "res", "k"), act)), spy)
+                    if "raised" in o:
+                        bad = True
+                        break
+                if bad:
+                    continue
+                st = w.slots[h["slot"]]
+                torch.manual_seed(M.step_seed(w, {"op": "Sample", "a": h["slot"], "b": 0, "res": 0, "k": 0}) % (2**31))
+                vec = M.mps_vec(st)
+                c_before = st.orthogonality_center
+                counts = dict(st.sample(num_shots=shots))
+                out["centres"][str(c_before)] = out["centres"].get(str(c_before), 0) + 1
+                out["scenarios"] += 1
+                if sum(counts.values()) != shots:
+                    out["raised"].append(("sample:total-count", f"MPS.sample returned {sum(counts.values())} of {shots} shots after {h['path']}", label))
+                    continue
+                tests, chi2 = bin_tests(counts, tn.bit_probs(vec, n, params["dim"]), shots, label)
+                out["tests"] += len(tests)
+                out["worst"] = sorted(out["worst"] + tests, key=lambda t: t[0])[:5]
+                out["chi2"].append((chi2, len(tests)))
+            except Exception as ex:
+                out["raised"].append(("sample:raises", f"MPS.sample raised {type(ex).__name__}: {ex} after {h['path']}", label))
+    return out
+
+
+def fill_task(task: dict) -> dict:
+    """Observables evaluated in sequence on the SAME state object, as a run does: the real fill_results with
+    CorrelationMatrix (which walks the orthogonality centre to the last site) followed by BitStrings."""
+    import torch
+    from emu_mps import MPS, MPSConfig
+    from emu_mps.mps_backend_impl import create_impl
+    from pulser.backend import BitStrings, CorrelationMatrix, Occupation
+
+    torch.set_num_threads(1)
+    logging.getLogger("emulators").setLevel(logging.ERROR)
+    rng = np.random.default_rng(task["seed"])
+    torch.manual_seed(task["seed"] % (2**31))
+    random.seed(task["seed"])
+    out = {"tests": 0, "worst": [], "scenarios": 0, "raised": [], "chi2": []}
+    for it in range(task["count"]):
+        d = int(rng.choice([2, 2, 3]))
+        n = int(rng.integers(2, (task["max_n"] if d == 2 else 5) + 1))
+        shots = int(rng.choice(task["shots"]))
+        order = str(rng.choice(["corr-then-bits", "occ-corr-bits", "bits-only"]))
+        label = {"kind": "MPS", "dim": d, "n": n, "shots": shots, "mode": "fill_results:" + order, "fp": 0.0, "fn": 0.0, "seed": task["seed"], "iteration": it}
+        try:
+            data, _ = M.make_sequence_data(rng, n, 1, 10.0, dim=d)
+            T = [0.0]
+            obs = {"corr-then-bits": [CorrelationMatrix(evaluation_times=T), BitStrings(evaluation_times=T, num_shots=shots)],
+                   "occ-corr-bits": [Occupation(evaluation_times=T), CorrelationMatrix(evaluation_times=T), BitStrings(evaluation_times=T, num_shots=shots)],
+                   "bits-only": [BitStrings(evaluation_times=T, num_shots=shots)]}[order]
+            with warnings.catch_warnings():
+                warnings.simplefilter("ignore")
+                cfg = MPSConfig(dt=10.0, precision=1e-10, observables=obs, optimize_qubit_ordering=False, log_level=logging.ERROR)
+            impl = create_impl(data, cfg)
+            impl.init_dark_qubits()
+            impl.init_initial_state(None)
+            impl.init_noiseless_hamiltonian()
+            fs = M.rand_factors(rng, n, d, int(rng.integers(2, 7)), 1.0)
+            fs[0] = fs[0] * float(rng.choice([1.0, 0.5, 2.0]))
+            st = MPS([torch.tensor(f) for f in fs], precision=1e-10, max_bond_dim=1024, eigenstates=M.EIG[d], num_gpus_to_use=0)
+            if rng.random() < 0.7:
+                st.orthogonalize(int(rng.integers(0, n)))
+            vec = M.mps_vec(st)
+            impl.state = st
+            impl.fill_results()
+            counts = dict(impl.results.bitstrings[0])
+            out["scenarios"] += 1
+            if sum(counts.values()) != shots:
+                out["raised"].append(("bitstrings:MPS:total-count", f"BitStrings stored {sum(counts.values())} of {shots} shots", label))
+                continue
+            tests, chi2 = bin_tests(counts, tn.bit_probs(vec, n, d), shots, label)
+            out["tests"] += len(tests)
+            out["worst"] = sorted(out["worst"] + tests, key=lambda t: t[0])[:5]
+            out["chi2"].append((chi2, len(tests)))
+        except Exception as ex:
+            out["raised"].append(("bitstrings:MPS:fill_results:raises", f"{type(ex).__name__}: {ex}", label))
+    return out
+
+
+def sample_histories(ctx: Ctx, depth: int, per_state: int) -> list[dict]:
+    """Run TLC on MPSOps.tla with one Python name, collect every distinct abstract state in which Sample is
+    taken and a shortest action path to it."""
+    res = run_tlc("MPSOps", None, workdir=ctx.work, name="mpsops_sample", cfg_text=M.cfg_text(2, 4, 1, depth, log=True), workers=4, timeout=900)
+    ctx.add_tlc(res)
+    rows = M.parse_log(res["out"], 1)
+    if not rows:
+        raise MachineryError("TLC printed no transitions of MPSOps")
+    rng = np.random.default_rng([ctx.seed, 151])
+    hist = []
+    for n in sorted({r["n"] for r in rows}):
+        rn = [r for r in rows if r["n"] == n]
+        succ: dict = {}
+        for r in rn:
+            succ.setdefault(r["pre"], {})[(r["op"], r["a"], r["b"], r["res"], r["k"])] = r["post"]
+        init = tuple([0] * 6)
+        path = {init: []}
+        frontier = [init]
+        while frontier:
+            nxt = []
+            for st in frontier:
+                for act, post in sorted(succ.get(st, {}).items()):
+                    if post not in path:
+                        path[post] = path[st] + [list(act)]
+                        nxt.append(post)
+            frontier = nxt
+        for st, acts in sorted(succ.items()):
+            if ("Sample", 1, 0, 0, 0) in acts and st in path and path[st]:
+                for _ in range(per_state):
+                    prm = {"seed": int(rng.integers(0, 2**31)), "dim": int(rng.choice([2, 2, 3])), "chi": 4, "decay": 1.0, "precision": 1e-10, "cap": 64}
+                    hist.append({"n": n, "path": path[st], "slot": 1, "params": prm, "model_centre": st[1]})
+    if not hist:
+        raise MachineryError("no history ending in Sample found in the MPSOps graph")
+    return hist
+
+
 def _dispatch(t):
-    return deterministic_task(t) if t["family"] == "det" else statistical_task(t)
+    if t["family"] == "det":
+        return deterministic_task(t)
+    if t["family"] == "hist":
+        return history_task(t)
+    if t["family"] == "fill":
+        return fill_task(t)
+    return statistical_task(t)
 
 
 def run(ctx: Ctx) -> None:
@@ -366,6 +507,15 @@ def run(ctx: Ctx) -> None:
         for _ in range(reps):
             tasks.append({"family": "stat", "kind": kind, "dim": d, "count": ctx.pick(10, 40) if kind == "MPS" else ctx.pick(25, 120),
                           "max_n": ctx.pick(6, 8), "shots": shots, "seed": int(rng.integers(0, 2**31))})
+    hist = sample_histories(ctx, ctx.pick(3, 4), ctx.pick(1, 2))
+    procs = int(os.environ.get("VERIF_PROCS", "16"))
+    for i in range(procs):
+        if hist[i::procs]:
+            tasks.append({"family": "hist", "histories": hist[i::procs], "shots": ctx.pick(3000, 10000)})
+    for _ in range(ctx.pick(4, 12)):
+        tasks.append({"family": "fill", "count": ctx.pick(6, 20), "max_n": ctx.pick(6, 8), "shots": ctx.pick([3000], [5000, 20000]), "seed": int(rng.integers(0, 2**31))})
+    ctx.coverage["histories_before_sampling"] = {"histories": len(hist), "model_centres_at_sample": sorted({h["model_centre"] for h in hist}),
+                                                 "distinct_paths": len({json.dumps(h["path"]) for h in hist})}
     outs = pmap(_dispatch, tasks)
     det = M.merge([o for t, o in zip(tasks, outs) if t["family"] == "det"])
     for v in det["violations"]:
@@ -374,7 +524,12 @@ def run(ctx: Ctx) -> None:
         if t["family"] == "det":
             ctx.case(("det", t["part"], t.get("kind"), t.get("dim")), sample={"part": t["part"], "kind": t.get("kind"), "dim": t.get("dim"), "real_calls": o["transitions"]})
     ctx.evaluations += det["transitions"]
-    stat = [o for t, o in zip(tasks, outs) if t["family"] == "stat"]
+    stat = [o for t, o in zip(tasks, outs) if t["family"] in ("stat", "hist", "fill")]
+    cen = {}
+    for o in stat:
+        for k, v in o.get("centres", {}).items():
+            cen[k] = cen.get(k, 0) + v
+    ctx.coverage["histories_before_sampling"]["real_declared_centre_before_sample"] = cen
     ntests = sum(o["tests"] for o in stat)
     alpha = FWER / max(ntests, 1)
     worst = sorted([w for o in stat for w in o["worst"]], key=lambda t: t[0])
@@ -385,13 +540,18 @@ def run(ctx: Ctx) -> None:
         if p < alpha:
             test = label.get("test", "outcome-frequency")
             kind = label["kind"]
-            key = f"sample:{kind}:{'readout-' if label['mode'] != 'born' else ''}{test}:differs-from-born-distribution"
+            stage = "after-operation-history:" if label["mode"] == "history" else "in-fill_results:" if label["mode"].startswith("fill_results") else "readout-" if label["mode"] != "born" else ""
+            key = f"sample:{kind}:{stage}{test}:differs-from-born-distribution"
             ctx.violation(key, f"{kind} (dim {label['dim']}, {label['n']} atoms, {label['shots']} shots, fp={label['fp']}, fn={label['fn']}): {test} observed {label['observed']} "
                           f"where {label['expected']:.1f} are expected; exact binomial p = {p:.2e} < {alpha:.2e} (family-wise 1e-9 over {ntests} tests)", {"scenario": label})
     for t, o in zip(tasks, outs):
         if t["family"] == "stat":
             ctx.case(("stat", t["kind"], t["dim"], t["seed"]), sample={"kind": t["kind"], "dim": t["dim"], "scenarios": o["scenarios"], "tests": o["tests"]})
             ctx.evaluations += o["scenarios"]
+        elif t["family"] in ("hist", "fill"):
+            ctx.case((t["family"], t.get("seed"), len(t.get("histories", []))), sample={"family": t["family"], "scenarios": o["scenarios"], "tests": o["tests"]} if o["scenarios"] else None)
+            ctx.evaluations += o["scenarios"]
+            ctx.traces_validated += o["scenarios"] if t["family"] == "hist" else 0
     chi = [c for o in stat for c in o["chi2"]]
     ctx.coverage["statistical"] = {"scenarios": sum(o["scenarios"] for o in stat), "exact_binomial_tests": ntests, "alpha_per_test": alpha,
                                    "smallest_p_value": worst[0][0] if worst else None,
